@@ -3,5 +3,5 @@
 AGENT_FILES="${AGENT_FILES:-c15 c16 c17 c18 c19 c20}"
 mkdir -p /verif/scratch/hw
 rsync -a --delete --exclude target /verif/harness/ /verif/scratch/hw/
-for f in $AGENT_FILES; do git -C /verif show HEAD:harness/src/props/$f.rs > /verif/scratch/hw/src/props/$f.rs; done
+for f in $AGENT_FILES; do git -C /verif show bc7c79d:harness/src/props/$f.rs > /verif/scratch/hw/src/props/$f.rs; done
 cd /verif/scratch/hw && CARGO_NET_OFFLINE=true RUSTFLAGS="--cfg kahflane_turdb_verif" cargo build -q "$@" 2>&1 | grep -E "^error" -A14 | head -60
